@@ -201,7 +201,9 @@ func genCase(t *rapid.T) Case {
 		c.Base = []string{"uint8", "uint16", "uint32", "uint64"}[g.pick(4, "uw")]
 	case 2:
 		c.Base = "decimal64"
-		c.FD = 1 + g.pick(3, "fd")
+		// few fraction digits with small values, or many with values of up to 15 significant digits (a unit in the last
+		// place is then a relative difference of 1e-15: boundaries are compared exactly, not within a tolerance)
+		c.FD = []int{1, 2, 3, 1, 2, 3, 9, 12, 15}[g.pick(9, "fd")]
 	default:
 		c.Base = "string"
 	}
@@ -209,6 +211,9 @@ func genCase(t *rapid.T) Case {
 	if c.Base == "decimal64" {
 		// stay far below 2^53 scaled units: exactness of 64-bit decimal64 bounds is C16's business
 		sp.Ranges = []vt.Iv{{Lo: big.NewInt(-9999999), Hi: big.NewInt(9999999)}}
+		if c.FD > 3 {
+			sp.Ranges = []vt.Iv{{Lo: big.NewInt(-999999999999999), Hi: big.NewInt(999999999999999)}}
+		}
 	}
 	depth := g.pick(5, "depth")
 	level := func(isLeaf bool) Level {
@@ -532,7 +537,7 @@ var _ schema.Type
 
 var chain = fw.Register(&fw.Prop[Case]{
 	ID: "C13", Name: "chain",
-	Rule: "typedef chains of depth 0-4 over int8..int64, uint8..uint64, decimal64 (fd 1-3), string, and the restriction-less bases boolean / enumeration / union (defaults only), with at each level an optional range (1-n parts, min/max keywords, single values, adjacent parts) or " +
+	Rule: "typedef chains of depth 0-4 over int8..int64, uint8..uint64, decimal64 (fraction-digits 1-3 with small values, 9/12/15 with values of up to 15 significant digits), string, and the restriction-less bases boolean / enumeration / union (defaults only), with at each level an optional range (1-n parts, min/max keywords, single values, adjacent parts) or " +
 		"length + patterns, drawn as a subset of the level below (usually), as a superset / outside, as descending / overlapping / unordered, or of a kind that does not apply; defaults at any level; " +
 		"1-3 leaves sharing the last typedef with different extra restrictions; oracle: exact interval-set model (math/big): compile succeeds iff every restriction is valid and narrows its base and the " +
 		"nearest default is in the final space; then Type().Validate on every bound +- one unit and random probes agrees with membership, and Type().Default() is the nearest default; " +
